@@ -23,7 +23,7 @@ LEVEL = "exploration"
 ENGINE = "E2 xprod"
 TECHNIQUE = "exhaustive product enumeration (parameter kinds x functionals x factorisations x calibration modes x strategies x linearisations x AD modes) with a Richardson finite-difference oracle and counterfactual attribution"
 LEVEL_TEXT = "Every combination of the lattice is differentiated in forward and reverse mode and compared with converged Richardson central differences; agreement to 1e-6 relative is claimed, not exactness."
-LEVEL_NOTE = "Oracle is numerical (finite differences): cases whose extrapolation does not converge to 1e-8 are counted as undecided, not as passes. Dynamic calibration only with stop_gradient_through_calibration=False."
+LEVEL_NOTE = "Oracle is numerical (finite differences): cases whose extrapolation does not converge to 1e-8 are counted as undecided, not as passes. Dynamic calibration with stop_gradient_through_calibration=False, with and without re_linearize_after_calibration."
 TIMEOUT_S = {"quick": 1800, "thorough": 7200}
 GRID = [0.0, 0.25, 0.375, 0.875]
 
@@ -31,11 +31,14 @@ GRID = [0.0, 0.25, 0.375, 0.875]
 def enumerate_cases(tier, seed):
     quick = tier == "quick"
     cases = []
-    for ssm, calib, strat, lin in itertools.product(("dense", "isotropic", "blockdiag"), ("none", "mle", "dynamic"), ("filter", "fixedinterval"), ("ts0", "ts1")):
+    for ssm, calib, strat, lin in itertools.product(("dense", "isotropic", "blockdiag"), ("none", "mle", "dynamic", "dynamic_relin"), ("filter", "fixedinterval"), ("ts0", "ts1")):
+        # dynamic_relin = solver_dynamic(re_linearize_after_calibration=True); both dynamic variants with stop_gradient_through_calibration=False
         if quick and strat == "fixedinterval" and ssm != "dense":
             continue
+        if quick and calib == "dynamic_relin" and strat == "fixedinterval":
+            continue
         for rank in ("fullrank", "exact"):
-            if rank == "exact" and (lin == "ts1" or calib == "dynamic"):
+            if rank == "exact" and (lin == "ts1" or calib.startswith("dynamic")):
                 # gains depend on the parameter (through the Jacobian / the per-step scale); attribution of such cases to the
                 # qr_r rule needs the exact QR derivative, which only exists on the full-rank sub-lattice (see module docstring)
                 continue
@@ -90,7 +93,7 @@ def _functionals(case):
         base = p["scale"] if case["ssm"] == "isotropic" else p["scale"] * jnp.asarray([1.0, 0.5])
         prior = ssm.prior_wiener_integrated(tc, is_exact=not full, inexact_eps=2.0 ** -4, output_scale=base)
         con = impl.make_constraint(ssm, C, m, case["lin"])
-        cfg = dict(calib=case["calib"], strategy=case["strategy"], stopgrad=False)
+        cfg = dict(calib=case["calib"].split("_")[0], relin=case["calib"].endswith("_relin"), strategy=case["strategy"], stopgrad=False)
         solver = impl.make_solver(cfg, con)
         return ivpsolve.solve_fixed_grid(solver=solver)(prior, grid=jnp.asarray(GRID), damp=damp)
 
